@@ -75,7 +75,7 @@ pub fn compare_nan<T, N: ArrayLength, const R: usize>() {
 }
 
 // ---- hashing: a recording Hasher
-pub const HCAP: usize = 48;
+pub const HCAP: usize = 192;
 pub struct RecHasher {
     pub buf: [u8; HCAP],
     pub len: usize,
